@@ -87,6 +87,16 @@ fn run<T: Sc>(case: &C14Case) -> Check {
                     out.skip("c14.value:sign-of-quadratic-form-not-determined");
                     continue;
                 }
+                // the quadratic form is accumulated in the scalar type under test: below
+                // MIN_POSITIVE/u its products are subnormal or flush to zero (seen in f32: form
+                // 1.2e-47 -> radius 0); nothing can be demanded of the value there
+                if forms[i] < T::min_positive_value().f() / T::unit() {
+                    out.skip("c14.value:quadratic-form-below-the-normal-range-of-the-scalar-type");
+                    if !(ri.is_finite() && ri >= 0.0) {
+                        return Err(Fail::new("c14.finite_nonnegative", format!("radius[{i}] = {ri:e} for p = {pp} (nu = {nu})")));
+                    }
+                    continue;
+                }
                 if !(ri.is_finite() && ri >= 0.0) {
                     return Err(Fail::new("c14.finite_nonnegative", format!("radius[{i}] = {ri:e} for p = {pp} (nu = {nu})")));
                 }
@@ -133,6 +143,9 @@ fn run<T: Sc>(case: &C14Case) -> Check {
     }
     out.class(if fam.f32 { "f32" } else { "f64" });
     out.class(if fam.w.is_some() { "weighted" } else { "unweighted" });
+    for r in fam.regime() {
+        out.class(r);
+    }
     Ok(out)
 }
 
@@ -160,7 +173,7 @@ impl Property for C14 {
                 fam.c_true.truncate(1);
                 // nu = N - M - P: small values over-sampled
                 let mp = fam.spec.m() + fam.spec.p;
-                let nus = [1usize, 1, 2, 2, 3, 3, 4, 5, 6, 8, 10, 15, 25, 40, 60, 90];
+                let nus = [1usize, 1, 2, 2, 3, 3, 4, 5, 6, 8, 10, 15, 25, 40, 60, 1100];
                 let n = mp + nus[pick(nsel, nus.len())];
                 let xmax = fam.x.last().copied().unwrap_or(1.0);
                 let quad = fam.family == 1;
@@ -186,6 +199,9 @@ impl Property for C14 {
                 C14Case { fam, ps, bad }
             })
             .boxed()
+    }
+    fn pool_of(&self, case: &Self::Case) -> Option<usize> {
+        case.fam.pool_size()
     }
     fn check(&self, case: &C14Case) -> Check {
         if case.fam.f32 {
